@@ -310,6 +310,52 @@ func (c *Ctx) SessionLifecycle(prop string) {
 		}
 	}
 	c.R.Floor(rule1, "session table accesses", nacc, 8)
+	// ---- O1b atomic check-then-act: between the lookup and any table write / session use the mutex is never released
+	ruleA := "C17.O1 guarded-by/atomic"
+	for _, name := range []string{"OnPrepare", "OnExecute", "OnContribute", "OnCommit", "OnAbort"} {
+		F := p.Methods[name]
+		h := Held(F, p.MuKey)
+		var lcs []ssa.CallInstruction
+		lcs = Calls(F, func(ci ssa.CallInstruction) bool { return ci.Common().StaticCallee() == p.Lookup })
+		var acts []ssa.Instruction
+		for _, a := range c.tableAccesses(p, F) {
+			if a.Write {
+				acts = append(acts, a.Ins)
+			}
+		}
+		for _, lc := range lcs {
+			for _, r := range *lc.Value().Referrers() {
+				if ex, ok := r.(*ssa.Extract); ok && ex.Index == 0 {
+					for _, u := range *ex.Referrers() {
+						if _, isDbg := u.(*ssa.DebugRef); !isDbg {
+							acts = append(acts, u)
+						}
+					}
+				}
+			}
+		}
+		bad := false
+		for _, op := range h.Ops {
+			if op.Deferred || (op.Op != "Unlock" && op.Op != "RUnlock") {
+				continue
+			}
+			u := op.Ins.(ssa.Instruction)
+			for _, lc := range lcs {
+				if !an.Reachable(an.After(lc), u) {
+					continue
+				}
+				for _, act := range acts {
+					if an.Reachable(an.After(u), act) {
+						bad = true
+						c.R.Fail(ruleA, Fn(F), c.Pos(u), name+" releases the table mutex between looking up the generation and acting on the result ("+c.Pos(act)+"): two messages for one account can both pass the check", "the mutex is held from the lookup to the last use of its result", nil)
+					}
+				}
+			}
+		}
+		if !bad && len(lcs) > 0 {
+			c.R.OK(ruleA, Fn(F), c.P.FuncPos(F), "the table mutex is not released between the lookup and the uses of its result / table writes")
+		}
+	}
 	// ---- O2 prepare
 	rule2 := "C17.O2 prepare"
 	{
